@@ -204,6 +204,41 @@ theorem hull_sublist {l₁ l₂ : List V} (h : l₁.Sublist l₂) : ∀ x, hullS
   obtain ⟨w', hl', hw', hs', hx'⟩ := lincomb_pad h w hl hw
   exact ⟨w', hl', hw', by rw [hs', hs], hx'⟩
 
+/-! ### hulls are convex -/
+
+theorem lincomb_zip (s t : ℝ) : ∀ (ps : List V) (w1 w2 : List ℝ), w1.length = ps.length →
+    w2.length = ps.length →
+    (List.zipWith (fun x y => s * x + t * y) w1 w2).length = ps.length ∧
+    (List.zipWith (fun x y => s * x + t * y) w1 w2).sum = s * w1.sum + t * w2.sum ∧
+    lincomb (List.zipWith (fun x y => s * x + t * y) w1 w2) ps =
+      s * lincomb w1 ps + t * lincomb w2 ps ∧
+    (0 ≤ s → 0 ≤ t → (∀ x ∈ w1, 0 ≤ x) → (∀ y ∈ w2, 0 ≤ y) →
+      ∀ z ∈ List.zipWith (fun x y => s * x + t * y) w1 w2, 0 ≤ z)
+  | [], [], [], _, _ => by
+    refine ⟨rfl, by simp, ?_, by simp⟩
+    apply V3.ext' <;> simp [lincomb]
+  | [], _ :: _, _, h, _ => by simp at h
+  | [], [], _ :: _, _, h => by simp at h
+  | _ :: _, [], _, h, _ => by simp at h
+  | _ :: _, _ :: _, [], _, h => by simp at h
+  | p :: ps, x :: w1, y :: w2, h1, h2 => by
+    obtain ⟨ihl, ihs, ihc, ihn⟩ := lincomb_zip s t ps w1 w2 (by simpa using h1) (by simpa using h2)
+    refine ⟨by simp [ihl], ?_, ?_, ?_⟩
+    · simp only [List.zipWith_cons_cons, List.sum_cons, ihs]; ring
+    · simp only [List.zipWith_cons_cons, lincomb, ihc]
+      apply V3.ext' <;> simp <;> ring
+    · intro hs ht hw1 hw2 z hz
+      simp only [List.zipWith_cons_cons, List.mem_cons] at hz
+      rcases hz with rfl | hz
+      · exact add_nonneg (mul_nonneg hs (hw1 x (by simp))) (mul_nonneg ht (hw2 y (by simp)))
+      · exact ihn hs ht (fun a ha => hw1 a (List.mem_cons_of_mem _ ha))
+          (fun a ha => hw2 a (List.mem_cons_of_mem _ ha)) z hz
+
+theorem hull_convex (pts : List V) : ConvexSet (hullSet pts) := by
+  rintro x y ⟨w1, hl1, hw1, hs1, rfl⟩ ⟨w2, hl2, hw2, hs2, rfl⟩ t ht0 ht1
+  obtain ⟨hl, hs, hc, hn⟩ := lincomb_zip (1 - t) t pts w1 w2 hl1 hl2
+  exact ⟨_, hl, hn (by linarith) ht0 hw1 hw2, by rw [hs, hs1, hs2]; ring, hc⟩
+
 /-! ### sub-simplex named by a bit set -/
 
 /-- the points of `pts` whose bit is set in `s` (bit i ↔ i-th point) -/
